@@ -1275,6 +1275,11 @@ PANIC_SITES = [
     lambda c: ("raw", "for range PT(b) {\n\trt.Emit(rt.EFF, 981)\n}"),
     lambda c: ("raw", "for _, pv := range PS(a) {\n\tYield(pv + 982)\n}"),
     lambda c: ("raw", "var tab = []int{1, 2}\nreturn_ := tab[a&3]\n_ = return_"),
+    # a panic inside a closure: the statement that contains the closure is not a panicking statement
+    lambda c: ("raw", "func() {\n\tif a&7 == %d {\n\t\tpanic(a + %d)\n\t}\n\trt.Emit(rt.EFF, 988)\n}()" % (c % 5, c)),
+    lambda c: ("raw", "rt.Emit(44, func() int {\n\tif b&3 == %d {\n\t\tpanic(\"in closure\")\n\t}\n\treturn b\n}())" % (c % 3)),
+    lambda c: ("raw", "Yield(func() int {\n\tif a&3 == %d {\n\t\tpanic(a)\n\t}\n\treturn a + 989\n}())" % (c % 3)),
+    lambda c: ("raw", "try := func(f func()) {\n\tf()\n}\ntry(func() {\n\tif g3 {\n\t\tpanic(b + %d)\n\t}\n})" % c),
 ]
 
 PANIC_HELPERS = """func PT(x int) *[3]int {
@@ -1548,6 +1553,19 @@ class ScopeSampler:
                     out.append(v)
         return out
 
+    def escapable(self, scopes):
+        """variables declared by a declaration statement (not by a loop / switch header) whose
+        innermost declaration is inside a loop body"""
+        out, seen = [], set()
+        for sc in reversed(scopes):
+            for v in sc["vars"]:
+                if v in seen:
+                    continue
+                seen.add(v)
+                if v in sc.get("own", ()) and sc.get("in_loop"):
+                    out.append(v)
+        return out
+
     def visible(self, scopes):
         vs = []
         for sc in scopes:
@@ -1571,7 +1589,7 @@ class ScopeSampler:
 
     def body(self, budget, scopes, in_loop, depth, pre=None):
         out = []
-        scopes = scopes + [{"vars": list(pre or []), "clos": [], "ro": list(pre or [])}]
+        scopes = scopes + [{"vars": list(pre or []), "clos": [], "ro": list(pre or []), "in_loop": in_loop}]
         while budget[0] > 0:
             ss = self.stmt(budget, scopes, in_loop, depth)
             out.extend(ss)
@@ -1615,12 +1633,21 @@ class ScopeSampler:
             kinds += ["BRK", "CNT"]
         if depth > 0:
             kinds += ["RET"]
+        esc_c = self.escapable(scopes)
+        if esc_c and in_loop:
+            kinds += ["ESC"] * 3
         if depth < self.max_depth and budget[0] >= 3:
             kinds += ["IFRE"] * 2
         k = rng.choice(kinds)
         top = scopes[-1]
         if k == "RET":
             return [("return",)]
+        if k == "ESC":
+            # a closure over a variable declared by a statement of a loop body outlives its iteration:
+            # it is called when the generator ends (every iteration has a variable of its own)
+            n = rng.choice(esc_c)
+            self.nesc = getattr(self, "nesc", 0) + 1
+            return [("raw", "esc = append(esc, func() int {\n\t%s += %d\n\treturn %s\n})" % (n, self.k(), n))]
         if k == "DECL":
             cand = [n for n in self.NAMES if n not in top["vars"]]
             if not cand:
@@ -1629,11 +1656,14 @@ class ScopeSampler:
                 n = rng.choice(cand)
                 e = self.expr(scopes)
                 top["vars"].append(n)
+                top.setdefault("own", []).append(n)
                 form = rng.random()
                 if form < 0.25:
                     return [("raw", "var %s = %s" % (n, e))]
                 if form < 0.4:
                     return [("raw", "var %s int\n%s = %s" % (n, n, e))]
+                if form < 0.5:
+                    return [("raw", "var %s int\n%s += %s" % (n, n, e))]
                 return [("decl", n, e)]
         if k == "MDEF":
             # multi-value ':=' that re-assigns a variable of this very block and declares a new one
@@ -2004,6 +2034,11 @@ def c06_consumer(rng, shape):
     if shape == "nested":
         inner = c06_loop_body(rng, "w", allow_return=True)
         return head + "\tfor v := range %s {\n\t\tt += v\n\t\tfor w := range %s {\n%s\n\t\t}\n\t\tif g3 && v > a {\n\t\t\tbreak\n\t\t}\n\t}\n" % (fin, rng.choice(["GC@(v, b)", "GA@(v, n)", "GB@(v)"]), indent(inner, 3)) + tail
+    if shape == "pull_inside_range":
+        # pairing / skipping: the body advances the ranged iterator by hand before it uses the loop variable
+        return head + "\tit := %s\n\tfor v := range it {\n\t\tlim++\n\t\tif lim > 3 {\n\t\t\tbreak\n\t\t}\n\t\tif !it.MoveNext() {\n\t\t\trt.Emit(46, -1)\n\t\t\tt = (t << 1) ^ v\n\t\t\tbreak\n\t\t}\n\t\tw := it.Current()\n\t\trt.Emit(46, w)\n\t\tt = (t << 2) ^ (v*3 + w)\n\t}\n" % src + tail
+    if shape == "skip_inside_range":
+        return head + "\tit := %s\n\tfor v := range it {\n\t\tlim++\n\t\tif lim > 3 {\n\t\t\tbreak\n\t\t}\n\t\tif g1 {\n\t\t\tit.MoveNext()\n\t\t}\n\t\trt.Emit(rt.EFF, 690)\n\t\tt = (t << 1) ^ v\n\t\tif g2 && v > b {\n\t\t\tcontinue\n\t\t}\n\t\trt.Emit(46, it.Current())\n\t}\n" % src + tail
     if shape == "pull_then_range":
         return head + "\tit := %s\n\tif it.MoveNext() {\n\t\tt = it.Current()\n\t\trt.Emit(46, t)\n\t}\n\tfor v := range it {\n%s\n\t}\n" % (src, indent(c06_loop_body(rng, "v"), 2)) + tail
     if shape == "range_then_pull":
@@ -2070,7 +2105,7 @@ def c06_consumer(rng, shape):
     raise ValueError(shape)
 
 
-C06_SHAPES = ["range_define", "range_assign", "nested", "pull_then_range", "range_then_pull", "struct_field", "map_slice", "closure_pull", "generic_take", "param_pass",
+C06_SHAPES = ["range_define", "range_assign", "nested", "pull_inside_range", "skip_inside_range", "pull_then_range", "range_then_pull", "struct_field", "map_slice", "closure_pull", "generic_take", "param_pass",
               "field_reassigned_in_loop", "index_changed_in_loop", "map_entry_reassigned_in_loop", "operand_evaluated_once",
               "first_match_nested", "first_element",
               "assign_to_element_moving_index", "assign_to_field_moving_pointer", "assign_to_deref_moving_pointer", "assign_to_map_entry_moving_key",
@@ -2259,6 +2294,10 @@ def c12_injections():
     I.append(("fallthrough", [("raw", "switch a & 1 {\ncase 0:\n\tYield(a + 912)\n\tfallthrough\ncase 1:\n\tYield(b + 913)\n}")]))
     I.append(("fallthrough_trivial_case", [("raw", "switch a & 1 {\ncase 0:\n\trt.Emit(rt.EFF, 914)\n\tfallthrough\ncase 1:\n\tYield(b + 915)\n}")]))
     I.append(("range_ptr_array", [("raw", "pa := [3]int{a, b, a + b}\nfor pi, pv := range &pa {\n\tYield(pv + pi + 916)\n}")]))
+    # no copy is made for a range over a pointer to an array: elements written after the loop started are seen
+    I.append(("range_ptr_array_write_ahead", [("raw", "pa := [4]int{a, b, a + b, 1}\nfor pi, pv := range &pa {\n\tif pi+1 < len(pa) {\n\t\tpa[pi+1] += pv\n\t}\n\tYield(pv + 1130)\n}")]))
+    I.append(("range_ptr_array_var_write_ahead_noyield", [("raw", "pa := [3]int{a, b, 1}\npp := &pa\npt := 0\nfor pi, pv := range pp {\n\tpt = pt*3 + pv\n\tif g3 && pi == 0 {\n\t\tpp[2] = a + 1131\n\t}\n}"), Y("pt + 1132")]))
+    I.append(("range_ptr_array_alias_write_between_yields", [("raw", "pa := [3]int{a, b, 1}\nal := pa[:]\nfor _, pv := range &pa {\n\tYield(pv + 1133)\n\tal[2] = b + 1134\n}")]))
     I.append(("range_ptr_array_noyield", [("raw", "pa := [3]int{a, b, a + b}\npt := 0\nfor pi, pv := range &pa {\n\tpt += pv + pi\n}"), Y("pt + 917")]))
     I.append(("yield_in_if_init", [("raw", "if Yield(a + 918); g3 {\n\tYield(b + 919)\n}")]))
     I.append(("yield_in_if_init_trivial_body", [("raw", "if Yield(a + 920); g3 {\n\trt.Emit(rt.EFF, 921)\n}")]))
